@@ -128,6 +128,10 @@ func excluded(tag string, without []string) bool {
 		return false
 	}
 	for _, w := range without {
+		if w == "*" {
+			// everything labelled except frame facts
+			return !strings.Contains(tag, "-frame")
+		}
 		if tag == w || strings.HasSuffix(tag, "-"+w) {
 			return true
 		}
